@@ -56,8 +56,10 @@ Patterns == {
     [kind |-> "any",   dirs |-> <<>>, stem |-> "a", ext |-> "py"]             \* **/a.py
 }
 
-\* (the last one: an always-excluded directory of the project named as the target itself)
-Targets == {<<>>, <<"src">>, <<"gen">>, <<"build">>}
+\* A target is a SET of path arguments.  (build: an always-excluded directory of the project named as the target itself;
+\* the last one: a directory and a directory nested two levels... one level below it, both named - with --no-recursive
+\* each contributes its own direct children.)
+Targets == {{<<>>}, {<<"src">>}, {<<"gen">>}, {<<"build">>}, {<<"src">>, <<"src", "sub">>}}
 
 CONSTANTS MaxPatterns,
           DirPatternPrefixFallback  \* TRUE: fnmatch(path, dir + "*") as coded at the pinned commit
@@ -68,8 +70,8 @@ vars == <<pats, recursive, target, done>>
 \* ---- helpers ------------------------------------------------------------------------------
 IsPrefix(s, t) == Len(s) <= Len(t) /\ \A i \in 1..Len(s) : s[i] = t[i]
 ToSet(s) == {s[i] : i \in 1..Len(s)}
-Under(f, t) == IsPrefix(t, f.dirs)
-Direct(f, t) == f.dirs = t
+Under(f, T) == \E t \in T : IsPrefix(t, f.dirs)
+Direct(f, T) == \E t \in T : f.dirs = t
 
 \* ---- layer A --------------------------------------------------------------------------------
 \* "must": documented meaning unambiguous;  Unspecified: docs leave it open (no verdict)
@@ -94,8 +96,9 @@ MustSkip(P, t, r) == {f \in Universe : ~LintedA(f, P, t, r) /\ ~DontCare(f, P)}
 
 \* ---- layer B --------------------------------------------------------------------------------
 \* os.walk from the target: directories BELOW the target are pruned when excluded
-WalkCollect(t, r) == {f \in Universe : /\ InScope(f, t, r) /\ ~Compiled(f)
-                                       /\ \A i \in (Len(t) + 1)..Len(f.dirs) : f.dirs[i] \notin ExcludedDirs}
+WalkCollect(T, r) == {f \in Universe : /\ ~Compiled(f)
+                                       /\ \E t \in T : /\ InScope(f, {t}, r)
+                                                       /\ \A i \in (Len(t) + 1)..Len(f.dirs) : f.dirs[i] \notin ExcludedDirs}
 \* _is_hardcoded_excluded: every part of the path as spelled (here: project-relative spelling)
 HardExcludedB(f) == Compiled(f) \/ \E d \in ToSet(f.dirs) : d \in ExcludedDirs
 FirstComponent(f) == IF Len(f.dirs) > 0 THEN f.dirs[1] ELSE f.stem
@@ -111,7 +114,7 @@ MatchesB(p, f) ==
 LintedB(P, t, r) == {f \in WalkCollect(t, r) : ~HardExcludedB(f) /\ ~\E p \in P : MatchesB(p, f)}
 
 \* ---- case builder -----------------------------------------------------------------------------
-Init == pats = {} /\ recursive = TRUE /\ target = <<>> /\ done = FALSE
+Init == pats = {} /\ recursive = TRUE /\ target = {<<>>} /\ done = FALSE
 AddPattern(p) == ~done /\ p \notin pats /\ Cardinality(pats) < MaxPatterns
                  /\ pats' = pats \cup {p} /\ UNCHANGED <<recursive, target, done>>
 Finish(t, r) == ~done /\ done' = TRUE /\ target' = t /\ recursive' = r /\ UNCHANGED pats
